@@ -205,6 +205,14 @@ var profC06 = profile{
 			a.Locked = c.Has("lock") && chance(t, "locked6", 30)
 		}
 		c.LockAfter, c.LockDurS = 100000, 43200 // only seeded and manual locks
+		if c.Has("remember") && c.Middleware != "remember" && chance(t, "apionly", 30) {
+			// an instance without a cookie store (API-only, admin back end) on a database where the
+			// front end issued remember tokens: a password change here must revoke them all the same
+			c.NoCookieStore = true
+			for i := range c.Accounts {
+				c.Accounts[i].RmTokens = rapid.IntRange(0, 3).Draw(t, "rmtokens")
+			}
+		}
 	},
 }
 
